@@ -153,7 +153,7 @@ struct Stats {
   unsigned ops = 0, removals = 0, inserts_after_removal = 0, copies = 0, doc_moves = 0, handle_ops = 0, proxy_ops = 0, deser_ops = 0;
   unsigned shared_string_removed = 0, cross_ledger_moves = 0, alias_excluded = 0, max_handle_survival = 0;
   bool removed_once = false;
-  unsigned container_sets = 0, no_such_key_ops = 0, assign_ops = 0;
+  unsigned container_sets = 0, no_such_key_ops = 0, assign_ops = 0, iterator_handles = 0;
 };
 
 // ------------------------------------------------------------------------------ helpers
@@ -291,7 +291,20 @@ bool lib_set(T&& target, const Scalar& sc, World& w) {
         }
       }
     }
-    case Scalar::RAW: return LIB_SET(serialized(sc.v.s));
+    case Scalar::RAW: {
+      // every way of giving a raw value: std::string, const char*, char*, (pointer, size); raw values
+      // are always copied, so the source is overwritten right after the call
+      std::string tmp = sc.v.s;
+      bool r;
+      switch (sc.skind % 4) {
+        case 0: r = LIB_SET(serialized(tmp)); break;
+        case 1: r = LIB_SET(serialized(static_cast<const char*>(tmp.c_str()))); break;
+        case 2: r = LIB_SET(serialized(const_cast<char*>(tmp.c_str()))); break;
+        default: r = LIB_SET(serialized(tmp.data(), tmp.size()));
+      }
+      for (auto& ch : tmp) ch = '#';
+      return r;
+    }
     case Scalar::BIN: {
       // sc.v is a Raw holding the bin8 encoding; give the payload through MsgPackBinary
       const std::string& r = sc.v.s;
@@ -361,7 +374,18 @@ bool lib_add(T&& target, const Scalar& sc, World& w) {
         }
       }
     }
-    case Scalar::RAW: return target.add(serialized(sc.v.s));
+    case Scalar::RAW: {
+      std::string tmp = sc.v.s;
+      bool r;
+      switch (sc.skind % 4) {
+        case 0: r = target.add(serialized(tmp)); break;
+        case 1: r = target.add(serialized(static_cast<const char*>(tmp.c_str()))); break;
+        case 2: r = target.add(serialized(const_cast<char*>(tmp.c_str()))); break;
+        default: r = target.add(serialized(tmp.data(), tmp.size()));
+      }
+      for (auto& ch : tmp) ch = '#';
+      return r;
+    }
     case Scalar::BIN: return target.add(MsgPackBinary(sc.v.s.data() + 2, sc.v.s.size() - 2));
   }
   return false;
@@ -415,6 +439,7 @@ inline Scalar gen_scalar(Src& s, const Options& opt) {
       sc.k = Scalar::RAW;
       static const char* R[] = {"1", "[1,2]", "{\"x\":null}", "\"raw\"", "true", " 7 ", "shared"};
       sc.v = Val::raw(R[s.below(7)]);
+      sc.skind = (int)s.below(4);
       break;
     }
     default: {
